@@ -74,9 +74,22 @@ def _grid(rng, dim, *, safe_peak=False, tier="quick"):
 
 
 def gen(rng, kind, tier):
+    case = _gen(rng, kind, tier)
+    if case is not None and case.get("field", {}).get("type") == "speckled":
+        case["field"]["mr"] = case["minimal_radius_cells"]
+    return case
+
+
+def _gen(rng, kind, tier):
     dim = int(rng.choice([1, 2, 2])) if tier == "quick" else int(rng.choice([1, 2, 2, 3]))
     if kind == "meta":
         spec = _grid(rng, dim)
+        if dim >= 2 and rng.random() < 0.35:
+            # same number of cells along every axis (the spacings stay different)
+            n0 = spec["shape"][0]
+            hh = geom.spacing(spec)
+            spec["shape"] = [n0] * dim
+            spec["bounds"] = [[b[0], b[0] + float(hh[a]) * n0] for a, b in enumerate(spec["bounds"])]
         f = {"type": str(rng.choice(["noise", "smooth", "waves", "droplets"])), "seed": int(rng.integers(1 << 30))}
         return {"grid": spec, "field": f, "stretch": float(2.0 ** int(rng.integers(-6, 7))),
                 "scale": float(rng.choice([-1.0, 2.0, 0.125, -3.5, 1e3, 1e-3, 1e-6, 1e-9, 1e7, -1e-5])),
@@ -132,8 +145,8 @@ def gen(rng, kind, tier):
     if kind == "count" and rng.random() < 0.3:
         # droplets plus many single-cell specks, counted with a minimal radius that removes the specks
         spec = _grid(rng, dim)
-        return {"grid": spec, "field": {"type": "speckled", "seed": int(rng.integers(1 << 30))},
-                "threshold": "0.5", "minimal_radius_cells": float(rng.choice([0.9, 1.2])),
+        return {"grid": spec, "field": {"type": "speckled", "seed": int(rng.integers(1 << 30)), "mr": 0.0},
+                "threshold": "0.5", "minimal_radius_cells": float(rng.choice([0.9, 1.2, 1.8, 2.4])),
                 "stretch": float(2.0 ** int(rng.integers(-4, 5))),
                 "scale": float(rng.choice([2.0, 0.125, 7.0])), "roll": [int(rng.integers(-n, n + 1)) for n in spec["shape"]]}
     if kind == "count":
@@ -171,9 +184,11 @@ def make_data(spec, f):
         return np.clip(data, 0, 1)
     if t == "speckled":
         data = np.zeros(shape)
-        for _ in range(int(r.integers(1, 3))):
+        mrc = float(f.get("mr", 1.2))
+        for _ in range(int(r.integers(1, 4))):
             c = [r.uniform(0, n) for n in shape]
-            rad = r.uniform(2.5, 4.0)
+            # some droplets only a little larger than the minimal radius (their halves are smaller than it)
+            rad = r.uniform(2.5, 4.0) if r.random() < 0.4 else r.uniform(1.15, 1.35) * max(mrc, 1.0)
             d2 = sum(np.minimum(np.abs(idx[a] + 0.5 - c[a]), shape[a] - np.abs(idx[a] + 0.5 - c[a])) ** 2 for a in range(len(shape)))
             data = np.maximum(data, (np.sqrt(d2) < rad).astype(float))
         # isolated single cells (no two adjacent, none touching a droplet), many of them in a row
@@ -271,6 +286,13 @@ def run(case, rec, *, ignore_known=False):
         rec.count("constant_field_skipped")  # the structure factor of a constant field is undefined
         return
     if kind == "meta":
+        if dim >= 2 and len(set(spec["shape"])) == 1:
+            # an unjudged analysis on the same cells with the axes' spacings exchanged comes first: what an earlier
+            # call on another grid left behind must not influence this one
+            sp_sw = {"family": "cart", "bounds": list(spec["bounds"][::-1]), "shape": list(spec["shape"][::-1]), "periodic": spec["periodic"]}
+            common.monitored(rec, "interfering:get_length_scale", droplets.get_length_scale, field_of(sp_sw, np.transpose(data)),
+                             method="structure_factor_mean")
+            rec.count("meta_cases_preceded_by_a_call_on_an_axis_swapped_grid")
         for method in ("structure_factor_mean",):
             base = ls(rec, spec, data, method)
             if not rec.check(base.ok, "no-exception", f"{method} raised {common.exc_text(base.exc) if base.exc else ''}; {label}"):
@@ -367,7 +389,7 @@ def run(case, rec, *, ignore_known=False):
                 rec.count("count_roll_skipped_winding_component")
             else:
                 rolls = [list(case["roll"])]
-                if case["field"]["type"] == "bars":  # several translations: label order changes with each
+                if case["field"]["type"] in ("bars", "speckled"):  # several translations: label order / cut position changes with each
                     rolls += [[(3 * x) // 2 + 1 if x else 0 for x in case["roll"]], [-(x // 3) - 2 if x else 0 for x in case["roll"]]]
                 for rl in rolls:
                     s = ls(rec, spec, np.roll(data, rl, axis=axes), "droplet_detection", **kw)
